@@ -610,10 +610,64 @@ func (c *Ctx) checkGroupOrder() {
 				}
 			}
 		}
+		// acquisition order: the per-key locks are either all taken while walking the sorted groups, or all
+		// collected first and taken afterwards in collected order. A mix (some groups locked on the spot, others
+		// deferred) makes the order depend on which keys of the list share a shard: [2 5] is taken 2,5 but
+		// [2 5 75] is taken 5,2,75 when 2 and 75 collide, so two consistently ordered lists deadlock.
+		if m == "Locks" || m == "RLocks" {
+			immediate, deferredAcq := "", false
+			for _, t := range ts {
+				for _, e := range t.Events {
+					if e.Kind != EvCall {
+						continue
+					}
+					switch n := e.callName(); {
+					case n == "(*sync.RWMutex).Lock" || n == "(*sync.RWMutex).RLock":
+						deferredAcq = true
+					case c.fnInModule(e.Callee) && c.acquiresKeyLock(e.Callee, 0):
+						immediate = c.fname(e.Callee)
+					}
+				}
+			}
+			if immediate != "" && deferredAcq && ok {
+				ok = false
+				c.violated("C02.group-order", mcons, mfn.Pos(), "some shard groups are locked on the spot (through "+immediate+") while others are collected and locked afterwards: the acquisition order is no longer (shard index, list position) but depends on which keys of the list share a shard, so two callers with consistently ordered lists can take two keys in opposite orders and deadlock", "")
+			}
+		}
 		if !usedSorted || !routed {
 			c.violated("C02.group-order", mcons, mfn.Pos(), "the multi-key operation does not go through the sorted shard groups", "")
 		} else if ok {
 			c.holds("C02.group-order", mcons, mfn.Pos(), "")
 		}
 	}
+}
+
+// acquiresKeyLock: fn (or a module function it calls, to depth 3) blocks on a per-key sync.RWMutex.
+func (c *Ctx) acquiresKeyLock(fn *ssa.Function, depth int) bool {
+	if fn == nil || fn.Blocks == nil || depth > 3 {
+		return false
+	}
+	for _, b := range fn.Blocks {
+		for _, in := range b.Instrs {
+			call, ok := in.(ssa.CallInstruction)
+			if !ok {
+				continue
+			}
+			if _, isGo := in.(*ssa.Go); isGo {
+				continue
+			}
+			callee := call.Common().StaticCallee()
+			if callee == nil {
+				continue
+			}
+			switch callee.String() {
+			case "(*sync.RWMutex).Lock", "(*sync.RWMutex).RLock":
+				return true
+			}
+			if c.fnInModule(callee) && c.acquiresKeyLock(callee, depth+1) {
+				return true
+			}
+		}
+	}
+	return false
 }
